@@ -8,7 +8,10 @@ socket of `harness/world.py` (selector, `recv_into`, clock) for the rest of the 
 
     core tokens as in world.py  |  P:<token of props/c19.py> for what `_connect()` does  |  S:<socket-module call>
 
-and is compared token by token with `ConnectLink.composed` (the `link` op of the model driver).
+and is compared token by token with `ConnectLink.attempt` (the `link` op of the model driver): the composed trace
+`ConnectLink.composed`, or - when `recv` is called on a socket without a timeout and the proxy stays silent - the trace up to
+that call followed by `P:R:BLOCKS-FOREVER HUNG:...` (model outcome `Attempt.hung`; code shape `block=` from the probe
+`blocks_before_tunnel()`).
 
 Outside this composition (covered by the checks of the parts): `https://` proxies and direct `wss://` connections
 (`_connect_sock(ssl=True)` wraps every candidate socket before `connect()`; the Proxy model logs only the wrap over the
@@ -239,6 +242,66 @@ def proxy_closes_on_failure():
 
 
 # ---------------------------------------------------------------------------------------------
+# variant detection (seeded change C19-r4m2): is the socket already in blocking mode while `_connect_proxy` negotiates?
+
+_BLOCK = None
+
+
+def blocks_before_tunnel():
+    """Probe (no source inspection): the real `_connect` -> `_connect_proxy` -> `_connect_sock` of the code under test on a stub
+       `socket` module whose one socket records the timeout that is in force when `recv` is called for the first time (the
+       proxy answers 200 at once, so the probe itself never waits).  Pinned order: `_connect_sock` has set 30 s and
+       `settimeout(None)` comes only after `_connect_proxy` returned -> False.  With `settimeout(None)` anywhere before the
+       first `recv` (end of `_connect_sock`, start of `_connect_proxy`, ...) -> True: a silent proxy then blocks `recv` for
+       ever.  The model driver is given the matching shape (`block=` of the `link` op; `Inputs.blockBeforeTunnel`)."""
+    global _BLOCK
+    if _BLOCK is None:
+        import lomond.session as S
+        from lomond.websocket import WebSocket
+        st = dict(timeout='never-set', at_first_recv='no-recv')
+
+        class Sock(object):
+            def settimeout(self, t): st['timeout'] = t
+            def setsockopt(self, *a): pass
+            def connect(self, sa): pass
+            def sendall(self, data): pass
+            def shutdown(self, how): pass
+            def close(self): pass
+
+            def recv(self, n):
+                if st['at_first_recv'] == 'no-recv':
+                    st['at_first_recv'] = st['timeout']
+                return OK200
+
+        class Mod(object):
+            error = real_socket.error
+            timeout = real_socket.timeout
+            AF_UNSPEC, SOCK_STREAM, IPPROTO_TCP, TCP_NODELAY, SHUT_RDWR = 0, 1, 6, 1, 2
+
+            @staticmethod
+            def getaddrinfo(host, port, fam, typ):
+                return [(2, 1, 6, '', ('10.0.0.1', port))]
+
+            @staticmethod
+            def socket(af, typ, proto):
+                st['timeout'] = None              # a new socket is in blocking mode
+                return Sock()
+
+        saved = S.socket
+        try:
+            S.socket = Mod
+            S.WebsocketSession(WebSocket('ws://example.com/', proxies={'http': 'http://proxy.example:3128'}))._connect()
+        except Exception:  # noqa -- whatever a changed `_connect` raises: judged by what was recorded
+            pass
+        finally:
+            S.socket = saved
+        if st['at_first_recv'] == 'no-recv':
+            raise RuntimeError('probe blocks_before_tunnel: the real _connect never called recv() on the proxy socket')
+        _BLOCK = st['at_first_recv'] is None
+    return _BLOCK
+
+
+# ---------------------------------------------------------------------------------------------
 # model line
 
 def link_line(case):
@@ -247,9 +310,10 @@ def link_line(case):
     assert core.startswith('core ')
     opt = lambda u: '-' if not u else u.encode('utf-8').hex()
     gai = case['gai']
-    head = 'link url=%s http=%s https=%s wrap=%d sel=%d pclose=%d gai=%s' % (
+    head = 'link url=%s http=%s https=%s wrap=%d sel=%d pclose=%d block=%d gai=%s' % (
         case['url'].encode('utf-8').hex(), opt(case.get('http')), opt(case.get('https')), 1 if case['wrap'] else 0,
-        0 if sc.conn == 'selfail' else 1, 1 if proxy_closes_on_failure() else 0, '-' if gai is None else ','.join(gai))
+        0 if sc.conn == 'selfail' else 1, 1 if proxy_closes_on_failure() else 0, 1 if blocks_before_tunnel() else 0,
+        '-' if gai is None else ','.join(gai))
     rd = ' '.join('x' if r[0] == 'x' else 't' if r[0] == 't' else 'd' + r[1] for r in case['reads'])
     return head + ' | ' + rd + ' | ' + core[5:]
 
@@ -487,6 +551,7 @@ def explore_stream(res, rng, mode, n, model_ok, pid, judge_close=False):
             res.count('link:address-retried')
         v = oracle(case, r) if mode != 'direct-wss' else None
         if any(t.startswith('HUNG:') for t in tk):
+            res.count('link:hung')            # compared with the model's `hung` outcome below like every other trace
             v = ('blocks-forever', 'the connection attempt never ends (neither ConnectFail nor Connected): recv() was called on a socket without a timeout while the proxy stays silent')
         if mode == 'direct-wss' and any(t.startswith('ESCAPED:') for t in tk):
             v = ('escaped', 'an exception left the event iterator: %s' % [t for t in tk if t.startswith('ESCAPED:')])
